@@ -257,6 +257,18 @@ enum ParseReferenceError {
 // FIXME: This is buggy. Does not check that is a valid sheet name
 // There is a similar named function in ironcalc_base. We probably should fix both at the same time.
 // NB: Maybe use regexes for this?
+/// The numeric value of a `<v>` element. Values that are not finite numbers ("NaN", "inf",
+/// "1e999") are read as 0, like values that are not numbers at all: a cell never holds a
+/// non-finite number.
+fn parse_finite_number(cell_value: Option<&str>) -> f64 {
+    cell_value
+        .unwrap_or("0")
+        .parse::<f64>()
+        .ok()
+        .filter(|f| f.is_finite())
+        .unwrap_or(0.0)
+}
+
 fn parse_reference(s: &str) -> Result<CellReferenceRC, ParseReferenceError> {
     let mut sheet_name = "".to_string();
     let mut column = "".to_string();
@@ -372,14 +384,14 @@ fn get_cell_from_excel(
                 if let Some(anchor) = anchor_cell {
                     Cell::SpillCell {
                         v: SpillValue::Number(
-                            cell_value.unwrap_or("0").parse::<f64>().unwrap_or(0.0),
+                            parse_finite_number(cell_value),
                         ),
                         s: cell_style,
                         a: anchor,
                     }
                 } else {
                     Cell::NumberCell {
-                        v: cell_value.unwrap_or("0").parse::<f64>().unwrap_or(0.0),
+                        v: parse_finite_number(cell_value),
                         s: cell_style,
                     }
                 }
@@ -487,7 +499,7 @@ fn get_cell_from_excel(
         match cell_type {
             "b" => make_cell(FormulaValue::Boolean(cell_value == Some("1"))),
             "n" => make_cell(FormulaValue::Number(
-                cell_value.unwrap_or("0").parse::<f64>().unwrap_or(0.0),
+                parse_finite_number(cell_value),
             )),
             "e" => {
                 // For compatibility reasons Excel does not put the value #SPILL! but adds it as a metadata
